@@ -51,6 +51,7 @@ type ROp struct {
 	Off uint32 `json:"off,omitempty"` // window offset; sequence = base + off (mod 2^32)
 	Typ uint16 `json:"typ,omitempty"`
 	D   int64  `json:"d,omitempty"` // sleep, ns
+	Pre bool   `json:"pre,omitempty"` // PushMessage of a message object that auparse.Parse produced before the first call (an application that parses, queues, then pushes)
 }
 
 // RPlan is a plan for the single-goroutine Reassembler engine.
@@ -77,7 +78,7 @@ type RPlan struct {
 }
 
 func (p *RPlan) Valid() bool {
-	if p.Max < 0 || p.Max > 64 || len(p.Ops) > 400 {
+	if p.Max < 0 || p.Max > 64 || len(p.Ops) > 1000 {
 		return false
 	}
 	for _, o := range p.Ops {
@@ -131,11 +132,14 @@ const (
 	fInterleave
 	fRollover
 	fClockBoundary
+	fLongEvent
 	nRFaults
 )
 
 var rFaultNames = []string{"drop_record", "drop_terminator", "drop_event_gap", "duplicate_record", "reorder", "delay_past_eviction",
-	"sequence_restart", "nil_message", "unparsable_push", "interleaved_events", "uint32_rollover_window", "boundary_sleep"}
+	"sequence_restart", "nil_message", "unparsable_push", "interleaved_events", "uint32_rollover_window", "boundary_sleep", "event_with_63_to_300_records"}
+
+const nBadRaw = 11 // variants of unparsable raw records (reasm_seq.go)
 
 var timeoutClasses = []int64{-1e9, 0, 1e6, 50e6, 2e9, 3600e9, math.MaxInt64}
 
@@ -197,6 +201,47 @@ func GenRPlan(r *core.Rng, tilt int) *RPlan {
 		p.Ops = genChaos(r, p, fired)
 	} else {
 		p.Ops = genStream(r, p, tilt, fired)
+	}
+	if p.WideB == 0 && r.Chance(1, 12) {
+		// one event with very many records (a runaway producer, a re-used
+		// sequence number): 63..300 non-terminating records for one new
+		// sequence number, somewhere in the history, then perhaps its terminator
+		var top uint32
+		for _, o := range p.Ops {
+			if (o.K == opPushMsg || o.K == opPushRaw) && o.Off > top {
+				top = o.Off
+			}
+		}
+		if top < spanMax {
+			n := core.Pick(r, 63, 64, 65, 100, 128, 129, 257, 300)
+			burst := make([]ROp, 0, n+1)
+			for j := 0; j < n; j++ {
+				burst = append(burst, ROp{K: opPushMsg, Off: top + 1, Typ: core.Pick[uint16](r, tPATH, tPATH, tSYSCALL, tEXECVE)})
+			}
+			if r.Chance(1, 2) {
+				burst = append(burst, ROp{K: opPushMsg, Off: top + 1, Typ: core.Pick[uint16](r, tPROCTITLE, tEOE)})
+			}
+			at := len(p.Ops)
+			for k, o := range p.Ops {
+				if o.K == opClose {
+					at = k
+					break
+				}
+			}
+			if at > 0 && r.Chance(1, 2) {
+				at = r.Intn(at + 1)
+			}
+			p.Ops = append(p.Ops[:at:at], append(burst, p.Ops[at:]...)...)
+			fired[fLongEvent]++
+		}
+	}
+	if r.Chance(1, 6) {
+		// message objects that were parsed ahead of time and pushed later
+		for i := range p.Ops {
+			if p.Ops[i].K == opPushMsg && r.Chance(1, 2) {
+				p.Ops[i].Pre = true
+			}
+		}
 	}
 	if tilt == 0 && p.WideB == 0 && r.Chance(1, 10) {
 		// the same history dealt onto 3..5 far-apart clusters of sequence numbers
@@ -454,7 +499,7 @@ func genStream(r *core.Rng, p *RPlan, tilt int, fired []int) []ROp {
 			fired[fNilMsg]++
 		}
 		if r.Chance(1, 60) {
-			ops = append(ops, ROp{K: opPushBad, Off: rc.off})
+			ops = append(ops, ROp{K: opPushBad, Off: rc.off, Typ: uint16(r.Intn(nBadRaw))})
 			fired[fBadRaw]++
 		}
 		k := opPushMsg
@@ -551,7 +596,7 @@ func genChaos(r *core.Rng, p *RPlan, fired []int) []ROp {
 			ops = append(ops, ROp{K: opPushNil})
 			fired[fNilMsg]++
 		default:
-			ops = append(ops, ROp{K: opPushBad})
+			ops = append(ops, ROp{K: opPushBad, Off: pool[r.Intn(len(pool))], Typ: uint16(r.Intn(nBadRaw))})
 			fired[fBadRaw]++
 		}
 	}
